@@ -120,6 +120,7 @@ pub fn evaluate(prop: &str, case: &Case, model: &Model, hist: &History) -> Verdi
         "C11" => crate::oracle2::c11(&a, &mut v),
         "C16" => crate::oracle2::c16(&a, &mut v),
         "C07" => crate::oracle3::c07(&a, &mut v),
+        "C09" => crate::oracle3::c09(&a, &mut v),
         "C13" => crate::oracle3::c13(&a, &mut v, "C13"),
         "C14" => crate::oracle3::c13(&a, &mut v, "C14"),
         "C17" => crate::oracle3::c17(&a, &mut v),
@@ -192,21 +193,29 @@ pub fn delivered_batch(a: &Analysis, i: usize) -> Option<usize> {
     // expectations that a delivered record cannot be told apart from: identical ones, and those of
     // the same span in the same trace when a parent's id was never observed
     let r = &a.model.recs[i];
+    let key = (r.trace_id, r.node, r.parent);
+    if let Some(b) = a.memo_batch.borrow().get(&key) {
+        return *b;
+    }
     let known = |p: &PRef| a.parent_id(p).is_some();
-    let alts: Vec<usize> = a
-        .model
-        .recs
-        .iter()
-        .enumerate()
-        .filter(|(_, x)| x.trace_id == r.trace_id && x.node == r.node && (x.parent == r.parent || !known(&x.parent) || !known(&r.parent)))
-        .map(|(j, _)| j)
-        .collect();
+    let alts: Vec<usize> = match a.by_key.get(&(r.trace_id, r.node)) {
+        Some(l) => l
+            .iter()
+            .copied()
+            .filter(|&j| {
+                let x = &a.model.recs[j];
+                x.parent == r.parent || !known(&x.parent) || !known(&r.parent)
+            })
+            .collect(),
+        None => vec![i],
+    };
     for j in alts {
         for &d in &a.matched[j] {
             let b = a.delivered[d].batch;
             best = Some(best.map(|x: usize| x.min(b)).unwrap_or(b));
         }
     }
+    a.memo_batch.borrow_mut().insert(key, best);
     best
 }
 
